@@ -251,7 +251,29 @@ func ruleGridDimensions(c *eng.Ctx) {
 			return
 		}
 		if ph, isPhi := acc.(*ssa.Phi); !isPhi || !isLoopCarried(ph) {
-			return
+			// or a running maximum kept in a field of a local struct (the extent a measuring helper returns)
+			ld, isLd := acc.(*ssa.UnOp)
+			if !isLd || ld.Op != token.MUL {
+				return
+			}
+			fa, isFA := ld.X.(*ssa.FieldAddr)
+			if !isFA {
+				return
+			}
+			if _, isAl := fa.X.(*ssa.Alloc); !isAl {
+				return
+			}
+			updated := false
+			eng.Instrs(in.Parent(), false, func(i2 ssa.Instruction) {
+				if st, ok := i2.(*ssa.Store); ok && eng.InLoop(st.Block()) {
+					if fa2, ok := st.Addr.(*ssa.FieldAddr); ok && fa2.X == fa.X && fa2.Field == fa.Field && (st.Val == col || eng.Slice(st.Val, nil)[col]) {
+						updated = true
+					}
+				}
+			})
+			if !updated {
+				return
+			}
 		}
 		found = true
 		// the reference string comes from Cells[induction]
